@@ -637,6 +637,15 @@ theorem current_tree_linearizable (h : currentTreeRacy = false) (sites : List (N
     listed finding.  A new shared scratch write breaks this obligation. -/
 theorem tables_ok : ∀ r ∈ Generated.sharedWrites, r.safe = true ∨ r.key ∈ knownFindingKeys := by decide
 
+/-- Since fix f42444e the translator finds NO racy validator site in the working tree: every `_name` write that is left
+    is residue that no validator reads back.  With `current_tree_linearizable` / `no_racy_site_equals_sequential`: all
+    concurrent validation calls of the modelled kinds are linearizable for EVERY schedule on the current tree. -/
+theorem current_tree_not_racy : currentTreeRacy = false := by decide
+
+theorem current_tree_positive (sites : List (Nat × String)) (sh : Shared) (calls : List Call) :
+    Linearizable sh (modelProgs Generated.sharedWrites sites calls) :=
+  current_tree_linearizable current_tree_not_racy sites sh calls
+
 /-- Field objects the library is KNOWN to share between different declarations (none) -/
 def knownAliasKeys : List String := []
 
